@@ -56,8 +56,19 @@ let run_spec = function
        Printf.sprintf "ok %s %s %s" (string_of_cn longest) (fmt_syms ss) (string_of_cn consumed))
   | _ -> "bad-args"
 
+(* tables bitstream-io compiles from the tree (Huffman.total_tables), for C10's heap bound *)
+let rec int_of_nat = function Model.O -> 0 | Model.S n -> 1 + int_of_nat n
+let run_tabmem = function
+  | [lens] ->
+    (match Model.new_vec (lens_of lens) with
+     | Ok t -> Printf.sprintf "tables=%d rem=0" (int_of_nat (Model.total_tables t.ht_tree))
+     | EParse _ -> "reject"
+     | _ -> "other")
+  | _ -> "bad-args"
+
 let dispatch kind args =
   match kind with
+  | "tabmem" -> run_tabmem args
   | "huff" -> run_huff args
   | "huffsym" -> run_huffsym args
   | "hufftree" -> run_hufftree args
